@@ -89,6 +89,27 @@ var zzBreakages = []zzBreakage{
 	{"unknown event", []string{"on nosuchevent", "    cls", "end"}, "top-early top-late"},
 	{"redeclared function", []string{"func p", "    cls", "end"}, "top-early top-late"},
 	{"condition not bool", []string{"if 1", "    cls", "end"}, "top-early func proc handler if loop top-late funcif handlerloop procwhile"},
+	{"variable of an earlier branch", []string{"if true", "    sb := 1", "    print sb", "else if true", "    print sb", "end"}, "top-early func proc handler if loop top-late funcif handlerloop procwhile"},
+	{"variable of an earlier else-if branch", []string{"if false", "    cls", "else if true", "    sb := 1", "    print sb", "else if true", "    print sb", "end"}, "top-early func proc handler if loop top-late funcif handlerloop procwhile"},
+	{"variable of an else-if branch in else", []string{"if false", "    cls", "else if true", "    sb := 1", "    print sb", "else", "    print sb", "end"}, "top-early func proc handler if loop top-late funcif handlerloop procwhile"},
+	{"variable of a branch after the if", []string{"if true", "    sb := 1", "    print sb", "end", "print sb"}, "top-early func proc handler if loop top-late funcif handlerloop procwhile"},
+	{"variable of a loop body after the loop", []string{"while false", "    sb := 1", "    print sb", "end", "print sb"}, "top-early func proc handler if loop top-late funcif handlerloop procwhile"},
+	{"loop variable after the loop", []string{"for sb := range 1", "    print sb", "end", "print sb"}, "top-early func proc handler if loop top-late funcif handlerloop procwhile"},
+	{"variable of an earlier iteration", []string{"for range 2", "    print sb", "    sb := 1", "end"}, "top-early func proc handler if loop top-late funcif handlerloop procwhile"},
+	{"local of a function used outside", []string{"print n"}, "top-early top-late if loop"},
+	{"parameter of a handler used outside", []string{"print k"}, "top-early top-late func proc"},
+	{"operand mismatch with empty array", []string{"om := 1 + []", "print om"}, "top-early func proc handler if loop top-late funcif handlerloop procwhile"},
+	{"operand mismatch with empty array on the left", []string{"om := [] + 1", "print om"}, "top-early func proc handler if loop top-late funcif handlerloop procwhile"},
+	{"operand mismatch with empty map", []string{"om := \"s\" == {}", "print om"}, "top-early func proc handler if loop top-late funcif handlerloop procwhile"},
+	{"comparison with empty array", []string{"om := 1 < []", "print om"}, "top-early func proc handler if loop top-late funcif handlerloop procwhile"},
+	{"mismatched operand types", []string{"om := \"s\" + 1", "print om"}, "top-early func proc handler if loop top-late funcif handlerloop procwhile"},
+	{"mismatched composite operands", []string{"om := [1] + [\"s\"]", "print om"}, "top-early func proc handler if loop top-late funcif handlerloop procwhile"},
+	{"logical operator on num", []string{"om := true and 1", "print om"}, "top-early func proc handler if loop top-late funcif handlerloop procwhile"},
+	{"call without value as element", []string{"om := [(cls)]", "print om"}, "top-early func proc handler if loop top-late funcif handlerloop procwhile"},
+	{"call without value as map value", []string{"om := {a:(cls)}", "print om"}, "top-early func proc handler if loop top-late funcif handlerloop procwhile"},
+	{"call without value as operand", []string{"om := (cls) == (cls)", "print om"}, "top-early func proc handler if loop top-late funcif handlerloop procwhile"},
+	{"call without value as argument", []string{"print (cls)"}, "top-early func proc handler if loop top-late funcif handlerloop procwhile"},
+	{"call without value declared", []string{"om := cls", "print om"}, "top-early func proc handler if loop top-late funcif handlerloop procwhile"},
 	{"illegal character", []string{"print #"}, "top-early func proc handler if loop top-late funcif handlerloop procwhile"},
 	{"unterminated string", []string{"print \"abc"}, "top-early func proc handler if loop top-late funcif handlerloop procwhile"},
 }
